@@ -163,7 +163,10 @@ REPLAY_SCRIPT = textwrap.dedent(
                 for rd in reps:
                     for rf in (reps if tf is not None else [None]):
                         seen[(ru, rd, rf)] = rebuilt(tu, td, tf, ru, rd, rf)
-            if len(set(seen.values())) > 1:
+            up_stale = tf is not None and tf > tu
+            want = (1 if up_stale else 0, 1 if (up_stale or tu > td or (tf is not None and tf > td)) else 0)   # from the instants alone
+            if len(set(seen.values())) > 1 or set(seen.values()) != {want}:
+                seen = dict(seen); seen["expected-from-instants"] = want
                 bad.append((tz, (tu, td, tf), seen))
     # the bundled file stores must report the file's mtime instant as naive LOCAL time (what the normalisation reads back)
     import tempfile
